@@ -1,13 +1,14 @@
 #!/usr/bin/env python3
 """Validate MANIFEST.json and every evidence file against the schemas (run with python3-vt)."""
-import json, sys, glob, jsonschema
+import json, sys, glob, os, jsonschema
+V = os.path.dirname(os.path.dirname(os.path.abspath(__file__)))
 ok = True
-m = json.load(open('/verif/MANIFEST.json')) if len(sys.argv) < 2 or sys.argv[1] != '--evidence-only' else None
+m = json.load(open(V + '/MANIFEST.json')) if len(sys.argv) < 2 or sys.argv[1] != '--evidence-only' else None
 if m is not None:
     jsonschema.validate(m, json.load(open('/root/.vp/MANIFEST.schema.json')))
     print("MANIFEST ok:", len(m['checks']), "checks,", len(m.get('not_applicable', [])), "not_applicable")
 s = json.load(open('/root/.vp/EVIDENCE.schema.json'))
-for f in sorted(glob.glob('/verif/evidence/*.json')):
+for f in sorted(glob.glob(V + '/evidence/*.json')):
     try:
         jsonschema.validate(json.load(open(f)), s)
     except Exception as e:
